@@ -30,7 +30,8 @@ RULE = ("One run = one polyhedron (ConvexPolyhedron or Polyhedron; convex, trian
         "with 0-2 scripted faults placed inside exports (k-th open/write/close/remove/read of "
         "that export) and a randomised buffer size; a fifth of the runs mutate the polyhedron "
         "(setters, diagonalize_inertia, merge_faces, sort_faces) before and between exports, "
-        "after which the oracle re-reads the shape's geometry; the first 7*2*2 run indices are a "
+        "after which the oracle re-reads the shape's geometry; files completed by earlier exports "
+        "of the run under other names must survive later exports byte for byte; the first 7*2*2 run indices are a "
         "stratified prefix (format x class x faulted). A run is non-trivial if at least one "
         "export completed and was parsed back or at least one fault fired; distinct = distinct "
         "sha256 digests of the full event log (environment calls, byte counts, faults, "
@@ -415,6 +416,8 @@ def execute(spec, world):
     verts = np.array(shape.vertices, copy=True)
     faces = [[int(i) for i in f] for f in shape.faces]
     writers = {f: getattr(cio, "to_" + f.lower(), None) for f in FORMATS}
+    # files completed by earlier exports of this run: path -> (bytes, format, step)
+    completed = {}
 
     for si, st in enumerate(spec["steps"]):
         C["steps"] += 1
@@ -567,6 +570,28 @@ def execute(spec, world):
                 finally:
                     if os.path.exists(real):
                         os.remove(real)
+
+        # an export writes its own file: what earlier exports of this run completed under
+        # *other* names must still be there, byte for byte (whether or not this one raised)
+        for other, (obytes, ofmt, ostep) in sorted(completed.items()):
+            if other == rel:
+                continue
+            now = bytes(world.fs.files[other]) if other in world.fs.files else None
+            if now != obytes:
+                C["earlier_export_lost"] += 1
+                res["violations"].append(violation(
+                    PROP, "earlier_export_lost", "the %s file %r completed at step %d %s "
+                    "during the %s export to %r (%s)" % (
+                        ofmt, other, ostep, "was deleted" if now is None else "was altered",
+                        fmt, rel, outcome), si, fmt=fmt, earlier=ofmt,
+                    what="deleted" if now is None else "altered"))
+                completed.pop(other)
+        C["earlier_exports_rechecked"] += len(completed) - (1 if rel in completed else 0)
+        if st["op"] == "export":
+            if outcome == "returned" and rel in world.fs.files:
+                completed[rel] = (bytes(world.fs.files[rel]), fmt, si)
+            else:
+                completed.pop(rel, None)  # a failed export may leave anything under its own name
 
         # exporting does not change the shape (whether or not it raised)
         light1 = _light_state(shape)
